@@ -81,7 +81,10 @@ def run(prop, tier, seed):
                 raise MachineryError("MC_Parser emitted only %d strings" % len(neigh))
             c.extra["strings_generated_by_tlc"] = len(neigh)
             strings = list(dict.fromkeys(strings + neigh))
-            items = [{"op": "construct", "ver": ver, "s": esc(s), "json": False} for s in strings for ver in "234"]
+            items = []
+            for s in strings:
+                for rep in range(3 if rnd.random() < 0.1 else 1):      # every tenth string is offered three times in a row to the same process
+                    items += [{"op": "construct", "ver": ver, "s": esc(s), "json": False} for ver in "234"]
             ev = record_events(items, work)
             for e in ev:                      # keep the trace small: C04 needs the outcome class only
                 if e["out"]["cls"] == "ok":
@@ -178,6 +181,7 @@ def run(prop, tier, seed):
                 for (v, s, b) in [p for p in pool if p[0] == ver][:30 if not big else 200]:
                     for t in range(101):
                         rhs.append((ver, "%d.%d/%s" % (t // 10, t % 10, s)))
+            rhs += corpus.rh_structural(rnd, pool, 6 if not big else 60)
             rhs += corpus.rh_strings(rnd, 6000 if not big else 150000, pool)
             rhs = list(dict.fromkeys(rhs))
             ritems = [{"op": "fromrh", "ver": ver, "s": esc(s), "json": False} for ver, s in rhs]
